@@ -534,7 +534,7 @@ void World::check_replicas() {
 // ------------------------------------------------------------------ ledger mode (C02 hostile shapes, C06)
 static std::string idkey(const JV &id) {
 	if (id.t == JV::Str) return "s" + id.s;
-	char b[40]; snprintf(b, sizeof b, "n%.15g", id.d); return b; // 15 significant digits: what a JSON printer must preserve
+	char b[40]; snprintf(b, sizeof b, "n%.17g", id.d); return b; // exact: two ids that differ in the 16th digit are two ids
 }
 
 void World::ledger_request(Client &cl, const std::string &text) {
@@ -608,7 +608,7 @@ void World::client_reaction(Client &cl, const Frame &f) {
 	JV msg = JV::obj();
 	msg.set("id", *idv);
 	if (pmode == "error") { JV er = JV::obj(); er.set("code", JV::num(-7)); er.set("message", JV::str("owner says no " + tok)); msg.set("error", er); }
-	else { JV r = JV::obj(); r.set("tok", JV::str(tok)); if (cl.policy.getd("expand", 0) > 0) { JV a = JV::arr(); for (int i = 0; i < (int)cl.policy.getd("expand", 0); i++) a.push(JV::numraw("1e14")); r.set("big", a); } msg.set("result", r); }
+	else { JV r = JV::obj(); r.set("tok", JV::str(tok)); if (cl.policy.getd("expand", 0) > 0 && g_variant.max_write_buffer >= 4096) { /* not where the relayed answer would be larger than the caller's whole write buffer, see DESIGN.md Appendix E */ JV a = JV::arr(); for (int i = 0; i < (int)cl.policy.getd("expand", 0); i++) a.push(JV::numraw("1e14")); r.set("big", a); } msg.set("result", r); }
 	if ((int)msg.dump().size() + 8 > g_variant.max_message && pmode != "error") { JV r2 = JV::obj(); r2.set("tok", JV::str(tok)); msg.put("result", r2); }   // an owner keeps its answers within the message limit
 	if (cl.policy.getb("forge")) { JV fg = JV::obj(); fg.set("id", JV::str("forged-" + tok)); fg.set("result", JV::str("forged")); schedule(now + delay, EV_REPLY, cl.idx, 0, fg.dump()); probe("forged_reply"); }
 	schedule(now + delay, EV_REPLY, cl.idx, 0, msg.dump());
